@@ -23,7 +23,7 @@ META = dict(
               "1-output set (8 samples) with free x, on a 2-input/2-output set (6 samples) with free x for the algebraic kernels and x pinned at one probe "
               "point for all; eps in {1/8, 1/4, 1/2, 1, 2}; RBF 1-input with default (MinMax/MinMax) and Standard + Pipeline transformers; LinearRegressor "
               "and PolynomialRegressor (degree 2; degree 3 once) on 3 learning sets x 5 transformer layouts, with/without intercept; 1 sample (2 samples "
-              "for 4 configurations). (c) Scaler / MinMaxScaler (incl. constant and zero features) / StandardScaler / Pipeline of 2-3 of them / empty "
+              "for 4 configurations). (c) Scaler / MinMaxScaler (incl. constant and zero features) / StandardScaler / Pipeline of 2-3 of them (also with a user-defined full-matrix linear transformer, a shear, whose Jacobian does not commute with the scalers) / empty "
               "Pipeline, d <= 2, 1-D and 2-D symbolic data. (d) SurrogateDiscipline over linear / polynomial / RBF models, dictionary inputs "
               "(two input variables, outputs of size 1 and 2).",
         thorough="same, plus every symbolic derivative cross-checked with sympy.diff at random rational points, 4 transformer layouts for the RBF models, "
@@ -281,7 +281,45 @@ def _transformer(spec):
                       coefficient=np.array(spec[2]) if isinstance(spec[2], list) else spec[2])
     if isinstance(spec, list) and spec[0] == "Pipeline":
         return Pipeline(transformers=[_transformer(s) for s in spec[1:]])
+    if isinstance(spec, list) and spec[0] == "LinMap":
+        return _linmap_class()(np.array(spec[1], dtype=float), np.array(spec[2], dtype=float))
     raise ValueError(spec)
+
+
+def _linmap_class():
+    """A user-defined transformer z -> A z with a FULL (non-diagonal) concrete dyadic matrix A and its exact inverse B.
+
+    gemseo's own lossless non-diagonal transformer (PCA with all components) is sklearn code; a user-defined BaseTransformer is the
+    documented extension point and gives Pipeline factors whose Jacobians do not commute with the diagonal scalers.
+    """
+    from gemseo.mlearning.transformers.base_transformer import BaseTransformer
+    from numpy import tile
+
+    class LinMap(BaseTransformer):
+        def __init__(self, a, b, name="LinMap"):
+            super().__init__(name)
+            self.a, self.b = a, b
+
+        def _fit(self, data, *args):
+            pass
+
+        @BaseTransformer._use_2d_array
+        def transform(self, data):
+            return data @ self.a.T
+
+        @BaseTransformer._use_2d_array
+        def inverse_transform(self, data):
+            return data @ self.b.T
+
+        @BaseTransformer._use_2d_array
+        def compute_jacobian(self, data):
+            return tile(self.a, (len(data), 1, 1))
+
+        @BaseTransformer._use_2d_array
+        def compute_jacobian_inverse(self, data):
+            return tile(self.b, (len(data), 1, 1))
+
+    return LinMap
 
 
 def _model(ctx, cfg):
@@ -635,6 +673,7 @@ def h_diff(ctx, cfg):
 
 PIPE = ["Pipeline", ["Scaler", [0.5, -1.0], [2.0, 0.25]], "MinMax"]  # 2 features
 PIPE1 = ["Pipeline", ["Scaler", 0.5, 4.0], "Standard"]  # any number of features
+LINMAP = ["LinMap", [[1.0, 2.0], [0.0, 1.0]], [[1.0, -2.0], [0.0, 1.0]]]  # a shear and its inverse: does not commute with diagonal scalings
 TRANSFORMERS = {
     "none": {},
     "default": "default",  # BaseRegressor.DEFAULT_TRANSFORMER: MinMaxScaler on inputs and outputs
@@ -712,7 +751,8 @@ def configs(tier):
     tlist = [("MinMax", "d1"), ("MinMax", "d2"), ("MinMax", "d2const"), ("MinMax", "d2zero"), ("Standard", "d1"), ("Standard", "d2"),
              ("Standard", "d2const"), ("Standard", "d2zero"), (["Scaler", [0.5, -1.0], [2.0, 0.25]], "d2"), (["Scaler", 3.0, 0.5], "d2"),
              (PIPE, "d2"), (PIPE1, "d1"), (["Pipeline", "MinMax", "Standard"], "d2"), (["Pipeline", "Standard", "MinMax", ["Scaler", 1.0, -2.0]], "d2const"),
-             (["Pipeline"], "d2")]
+             (["Pipeline"], "d2"), (LINMAP, "d2"), (["Pipeline", ["Scaler", [0.5, -1.0], [2.0, 0.25]], LINMAP], "d2"),
+             (["Pipeline", LINMAP, "MinMax"], "d2"), (["Pipeline", "Standard", LINMAP, ["Scaler", [1.0, 0.0], [4.0, 0.5]]], "d2")]
     for spec, fit in tlist:
         # the empty pipeline returns a (d, d) identity also for 2-D data (broadcastable, not per-sample): shape not asserted there
         for ndim in ((1, 2) if spec != ["Pipeline"] else (1,)):
